@@ -127,6 +127,10 @@ func c08ClassesAccept(pred string, r *c08Result) []string {
 		if r.diag["diag.listNullabilityDiffers"] {
 			return []string{"list-nullability-ignored-in-response-shape"}
 		}
+	case "singleRootField":
+		if r.diag["diag.subscriptionCollectsNothing"] {
+			return []string{"subscription-collects-no-root-field"}
+		}
 	case "allVariableUsesDefined", "allVariableUsagesAllowed":
 		if r.diag["diag.varInFragmentDefinitionDirective"] {
 			return []string{"variable-in-fragment-definition-directive"}
@@ -900,6 +904,12 @@ func (run *c08Run) sweep() {
 		"{ __schema { types { ...T ...T fields { ...F } } } } fragment T on __Type { inputFields { name } } fragment F on __Field { type { ...T possibleTypes { ...T } } }",
 	} {
 		hand = append(hand, [2]string{c08SeedSchema, d})
+	}
+	// a subscription whose every selection sits under a type condition that cannot apply to the subscription
+	// type collects NO root field (recorded finding: the rule only reports more than one)
+	subSchema := "schema { query: Q subscription: S } interface I { a: Int } type S implements I { a: Int } type O implements I { a: Int } type Q { a: Int }"
+	for _, d := range []string{"subscription { ... on I { ... on O { a } } }", "subscription Sub { ...F } fragment F on I { ... on O { a } }", "subscription { ... on I { ... on O { a } ... on S { a } } }"} {
+		hand = append(hand, [2]string{subSchema, d})
 	}
 	run.batch(hand, "hand-written")
 	for k := 1; k <= 3; k++ {
